@@ -2,14 +2,17 @@ _Q = 'xdoctest.utils.util_stream:CaptureStdout.'
 _P = 'xdoctest.utils.util_import:PythonPathContext.'
 PROPERTY = {
     'id': 'C12',
-    'contract_modules': ['util_stream', 'util_import'],
-    'functions': [_Q + '__init__', 'xdoctest.utils.util_stream:TeeStringIO.__init__', _Q + 'start', _Q + 'stop', _Q + 'log_part', _Q + '__enter__', _Q + '__exit__',
+    'contract_modules': ['doctest_example', 'util_stream', 'checker', 'doctest_part', 'runner', 'util_import'],
+    'functions': ['xdoctest.doctest_example:DocTest.run', _Q + '__init__', 'xdoctest.utils.util_stream:TeeStringIO.__init__', _Q + 'start', _Q + 'stop', _Q + 'log_part', _Q + '__enter__', _Q + '__exit__',
                   _P + '__init__', _P + '__enter__', _P + '__exit__',
                   'xdoctest.utils.util_import:_custom_import_modpath',
                   'xdoctest.utils.util_import:split_modpath', 'xdoctest.utils.util_import:modpath_to_modname',
                   'xdoctest.utils.util_import:import_module_from_name'],
     'clauses': {
-        'P': ['CaptureStdout.stop/__exit__: sys.stdout is the original object afterwards on every outcome of log_part '
+        'P': ['DocTest.run: sys.stdout is the object it was at entry on EVERY exit -- normal return, early return after an import failure, '
+              'and every escaping exception (KeyboardInterrupt, SystemExit, Skipped, on_error="raise") -- although the doctest code may rebind '
+              'it; every exec/eval/asyncio.run call lies inside warnings.catch_warnings (pre obligations on a ghost depth counter)',
+              'CaptureStdout.stop/__exit__: sys.stdout is the original object afterwards on every outcome of log_part '
               '(try/finally), __exit__ never swallows an exception; frame: nothing but the named fields and sys.stdout changes',
               'PythonPathContext: __enter__ inserts at the normalised index; __exit__ removes exactly that entry '
               '(in place, or the first occurrence when it moved; RuntimeError iff it is gone); sys.path is a Seq String',
